@@ -1,6 +1,6 @@
 """C06 — checkpoint file is never torn (DESIGN section 3, C06)."""
 from ..facts import table_py, walk, strip, strip_casts, lv, show, writes, calls, int_value
-from ..flow import cond_atoms
+from ..flow import cond_atoms, MustFacts
 from ..q import (Site, call_sites, site_before, forward_scan, backward_scan, const_eval, str_value, reaching_format,
                  edge_start, must_pass_to_exit, elem_has_call)
 from ..snapshot import AnalysisBroken
@@ -1020,6 +1020,61 @@ def r06_11(prog, rep, rid="R06.11"):
         rep.broken_("rule=%s expected the grown node array of the all-users dump, found none" % rid)
 
 
+def r06_12(prog, rep, rid="R06.12"):
+    """A queue file starts with a header whose X-ECHS-OWNER (and calendar-wide defaults) come from the task handed to
+    echs_icalify_init(); the tasks behind it carry no owner of their own.  In the per-user checkpoint that task must be one of the
+    user the file is written for: where the instruction is built, `echs_task_owner(<that task>) == <the uid parameter>` (or the
+    ownership predicate) holds on every path — otherwise the file is complete and parseable, and the restarted daemon arms the user's
+    tasks under somebody else's uid."""
+    n = 0
+    for f in prog.fns_in(DAEMON):
+        if not f.cfg or not f.params or "uid_t" not in (f.params[0].get("t") or ""):
+            continue
+        cfg = f.cfg
+        up = f.params[0]["n"]
+        sites = call_sites(f, "echs_icalify_init")
+        if not sites:
+            continue
+        mf = MustFacts(cfg)
+        for S in sites:
+            a = strip_casts(cfg.resolve(S.node["a"][1])) if len(S.node.get("a", ())) > 1 else None
+            ini = a
+            if isinstance(a, dict) and a.get("k") == "ref":
+                for b, i, x, line in cfg.all_elems():
+                    for l, kind, nn in writes(x):
+                        if kind == "decl" and lv(l) == a["n"] and nn.get("init") is not None:
+                            ini = strip_casts(cfg.resolve(nn["init"]))
+                            at = (b, i)
+            else:
+                at = (S.b, S.i)
+            if not (isinstance(ini, dict) and ini.get("k") == "init"):
+                continue
+            def flat(ini_):
+                for k_, v_ in ini_["fs"]:
+                    v2 = strip_casts(v_) if isinstance(v_, dict) else v_
+                    if k_ == "" and isinstance(v2, dict) and v2.get("k") == "init":
+                        yield from flat(v2)         # members of an anonymous union/struct
+                    else:
+                        yield k_, v_
+            tsk = [v_ for k_, v_ in flat(ini) if k_ == "t" and v_ is not None]
+            if not tsk:
+                continue        # the header of an empty queue: no task, no owner taken from one
+            n += 1
+            ttxt = show(strip_casts(tsk[0]))
+            facts = mf.at(*at) or set()
+            key = "%s/header-task-belongs-to-the-user" % f.name
+            good = any(fa[0] == "eq" and up in (fa[1], fa[2]) and ("echs_task_owner(%s)" % ttxt) in (fa[1], fa[2]) for fa in facts) or \
+                any(fa[0] == "true" and fa[1].replace(" ", "") == ("echs_task_owned_by_p(%s,%s)" % (ttxt, up)).replace(" ", "") for fa in facts)
+            if good:
+                rep.ok(rid, key, f.loc(S.line), "the header is written from a task whose owner was found to be %s" % up)
+            else:
+                rep.fail(rid, key, f.loc(S.line), "the header of user %s's queue file is written from `%s` without that task having been found to belong to "
+                         "%s: X-ECHS-OWNER names whoever owns the first task in the table, and after a restart %s's tasks are armed under that uid" % (
+                             up, ttxt[:40], up, up))
+    if n < 1:
+        rep.broken_("rule=%s the per-user checkpoint no longer writes its header from a task" % rid)
+
+
 def run(prog, rep, tier, snap):
     rep.rule("R06.1", "write-close-rename protocol in every function that renames into the spool", 12)
     rep.call(r06_1, prog, rep)
@@ -1039,6 +1094,8 @@ def run(prog, rep, tier, snap):
     rep.call(r06_10, prog, rep)
     rep.rule("R06.11", "addresses of elements of an array grown by realloc() are handed over again behind the growth", 1)
     rep.call(r06_11, prog, rep)
+    rep.rule("R06.12", "the per-user checkpoint writes its header from a task of that user", 1)
+    rep.call(r06_12, prog, rep)
     rep.rule("R06.9", "the all-users dump is triggered at the capacity at which the change list saturates", 1)
     rep.call(r06_9, prog, rep)
     from ..rules import valist
